@@ -103,8 +103,10 @@ def gen_cases(rng, tier):
             kw = dict(n=rng.choice([4, 5, 6]), qn=True, enc="01", sector="rand", swap_jw=False)
         else:
             kw = dict(norb=2, sector=[1, 1], swap_jw=False)
-        add(cls="ofs", kind=kind, method="2site", prep="left", ofs=rng.choice(["s", "d", "ds", "debug"]),
-            procedure=proc(6 if full else 3, full=full, lowm=(4, 6, 10)), nroots=1, m_init=64 if full else 8, **kw)
+        o = rng.choice(["s", "d", "ds", "debug"])
+        add(cls="ofs", hvar=None, kind=kind, method="2site", prep="left",
+            procedure=[[{"m": m_, "ofs": o, "swap_jw": False}, p_] for m_, p_ in proc(6 if full else 3, full=full, lowm=(4, 6, 10))],
+            nroots=1, m_init=64 if full else 8, **kw)
     # (k) every returned state: roots 1..4 x both methods x truncating / non-truncating bond limit, strongly entangled chain (couplings
     #     between all pairs), largest sector: norm, sector, <H> by dense contraction, consistency with the reported energy
     for rep in range(mult):
@@ -170,6 +172,14 @@ def gen_cases(rng, tier):
     # (o) corpus: the input of fix 9c06eb1 -- an exception raised by the optimiser on a legal input is a failure
     cases.append({"id": len(cases), "seed": 5, "cls": "raise-corpus", "kind": "nroots_corpus", "sector": [3], "method": "1site", "prep": "left",
                   "procedure": [[2, 0.4], [2, 0.2], [2, 0.0], [2, 0.0]], "nroots": 4, "m_init": 2})
+    # (p) on-the-fly swapping really switched ON: procedure entries are CompressConfig(..., ofs=...) objects (integer entries switch it off),
+    #     2-site, strong non-neighbour couplings so that swaps are accepted late in the last sweep; exact ranks (6 spins: 8) and truncating
+    for rep in range(mult):
+        for ofs in ("s", "d", "ds"):
+            for full in (True, True, False):
+                m = 8 if full else 4
+                add(cls="ofs-on", hvar=None, kind="spin_ofs", n=6, sector=None, method="2site", prep="left", nroots=1, m_init=8,
+                    procedure=[[{"m": m, "ofs": ofs}, 0.0]] * 4, expect_final_exact=full, e_rtol=1e-12, e_atol=1e-12)
     # (i) warm starts: non-canonical tensors under canonical-looking flags (results of add / apply), both flag settings
     for rep in range(8 * mult):
         kind = rng.choice(["spin", "spin", "holstein"])
@@ -559,7 +569,7 @@ def run(ctx):
             for key, l in zip(keys[b:b + per], lists):
                 tree_traces[key] = l
     # ------------------------------------------------------------------ verdicts
-    n_trace = n_trace_ok = n_solves = n_full = n_conv = n_skip = n_crash = 0
+    n_trace = n_trace_ok = n_solves = n_full = n_conv = n_skip = n_crash = n_ofs = n_ofs_reordered = 0
     dist = {}
     classes = {}          # class -> list of (case, detail)
     samples = []
@@ -578,6 +588,11 @@ def run(ctx):
                 n_crash += 1
             classes.setdefault(klass, []).append((c, detail))
         n_solves += len(r.get("solves", []))
+        if "order_after" in r:
+            n_ofs += 1
+            fo = [f.get("order") for f in r.get("final", []) if f.get("order")]
+            if fo and fo[0] != sorted(fo[0], key=lambda x: (len(x), x)):
+                n_ofs_reordered += 1
         n_full += 1 if r.get("_full_reached") else 0
         n_conv += 1 if r.get("_converged_full") else 0
         if not r.get("ok") or "trace" not in r:
@@ -720,7 +735,7 @@ def run(ctx):
     for cb in corr_bad:
         ctx.violation("trace-model-eval", "correspondence: the Coq model could not be evaluated", cb, found=False)
     order = ["variational-bound", "witness-projection", "witness-rayleigh", "witness-isometry", "witness-sector", "witness-hook", "full-bond-exactness",
-             "returned-state", "bond-limit", "solvers-disagree", "trace-correspondence", "crash", "invalid-input"]
+             "returned-state", "ofs-order", "bond-limit", "solvers-disagree", "trace-correspondence", "crash", "invalid-input"]
     for klass in order + sorted(k for k in classes if k not in order):
         if klass not in classes:
             continue
@@ -747,6 +762,7 @@ def run(ctx):
                   "variational-bound": "dense oracle: reported energy below the exact sector eigenvalue (C08_variational_bound / C08_second_root / C08_shifted_target contradicted, so one of their witness hypotheses fails)",
                   "full-bond-exactness": "dense oracle: at full bond dimension the reported energy differs from exact diagonalisation (residual clause)",
                   "returned-state": "dense oracle: returned state not normalised / outside the sector / energy differs from the reported one",
+                  "ofs-order": "dense oracle: on-the-fly swapping leaves state / operator / model site orders inconsistent",
                   "bond-limit": "dense oracle: a bond of the returned state exceeds the limit given for it (C08_trunc_bond_is_active_bond)",
                   "state-not-normalised": "dense oracle: `the returned states are normalised` fails for the tree optimiser (state optimised in place)",
                   "solvers-disagree": "dense oracle: eigen-solver branches disagree at full bond dimension (C08_solvers_request_smallest / exact diagonalisation)"}.get(
@@ -776,6 +792,6 @@ def run(ctx):
         "samples": samples[:3],
         "exhaustive": False,
         "input_distribution": {"operator_handed_in": {str(k): sum(1 for c in cases if c.get("hvar") == k) for k in (None, "terms", "offset", "scale", "sum", "empty")},
-                               "chain_cases_by_class": dist, "tree_cases_by_topology": tdist, "skipped_at_setup": n_skip, "optimiser_raised": n_crash,
+                               "chain_cases_by_class": dist, "tree_cases_by_topology": tdist, "swapping_runs": n_ofs, "swapping_runs_with_reordered_result": n_ofs_reordered, "skipped_at_setup": n_skip, "optimiser_raised": n_crash,
                                "trace_param_tuples": len(params), "tree_runs": n_tree},
     }
